@@ -34,6 +34,8 @@ def configs(ctx):
                         if npts == 2 and n == 3 and dop > 0 and ctx.quick and t == 0.0 and kind != "bootstrap":
                             continue  # 3000+ paths per start; kept for thorough
                         out.append(dict(move="pg", npts=npts, kind=kind, prop_op=pop, data_op=dop, N=n, thr=t, alpha=a, wiring=wiring))
+    # tied weights at the "always resample" threshold (regression for the relative-ESS round-off finding)
+    out.append(dict(move="pg", npts=2, kind="fully-adapted", prop_op=0.1, data_op=0.2, N=3, thr=1.0, alpha=2.5, wiring="library", flat_only=True))
     if not ctx.quick:
         # three data points: selected configurations (minutes each)
         for kind in KINDS:
@@ -59,10 +61,10 @@ def run(ctx):
     try:
         for cfg in cfgs:
             npts = cfg["npts"]
-            for flat in (False,) if ctx.quick or npts == 3 else (False, True):
+            for flat in ((True,) if cfg.get("flat_only") else (False,) if ctx.quick or npts == 3 else (False, True)):
                 key = (npts, flat)
                 if key not in datasets:
-                    datasets[key] = rational_values(ctx.rng, npts, 1 if npts == 3 else ctx.rng.choice([1, 2]), 3 if npts == 3 else 4, flat=flat)
+                    datasets[key] = rational_values(ctx.rng, npts, 2 if flat else (1 if npts == 3 else ctx.rng.choice([1, 2])), 3 if npts == 3 else 4, flat=flat)
                 vals = datasets[key]
                 t = time.time()
                 res = transition_matrix(vals, cfg["data_op"], cfg, pool=pool)
